@@ -616,7 +616,7 @@ fn main() {
     for t in spelling_trees_exact(k) {
       for (ci, (cname, ctx)) in SPELLING_CONTEXTS.iter().enumerate() {
         // quick: full trees in three contexts, trees <= 1 internal node in the others
-        if run.quick() && k == 2 && ![1, 5, 0, 7].contains(&ci) {
+        if run.quick() && k == 2 && ![1, 5, 0, 7, 10].contains(&ci) {
           continue;
         }
         programs.push(Program {
